@@ -399,10 +399,32 @@ def _cmp(op, a, b):
     return Fraction(-1 if r else 0)
 
 
+def round_half_away(x):
+    """Nearest integer, exact halves away from zero (the conversion GW-BASIC applies to operands of integer operators)."""
+    a = abs(x)
+    fl = a.numerator // a.denominator
+    r = fl + 1 if (a - fl) >= Fraction(1, 2) else fl
+    return -r if x < 0 else r
+
+
 def _int16(x):
-    if x.denominator != 1 or not (-32768 <= x <= 32767):
-        raise Unsafe('integer operator on a non-integer or out-of-range operand')
-    return int(x)
+    """Operand of \\ MOD NOT AND OR XOR EQV IMP: rounded to an integer first; outside -32768..32767 is not judged."""
+    r = round_half_away(x)
+    if not (-32768 <= r <= 32767):
+        raise Unsafe('integer operator on an out-of-range operand')
+    return r
+
+
+def _fits_single(r):
+    """Exactly representable with a 24-bit mantissa: then every correct arithmetic yields exactly r."""
+    n = abs(r.numerator)
+    d = r.denominator
+    if d & (d - 1):
+        return False
+    if n == 0:
+        return True
+    tz = (n & -n).bit_length() - 1
+    return n.bit_length() - tz <= 24
 
 
 def _s16(v):
@@ -491,6 +513,8 @@ def eval_exact(t):
         raise ValueError(op)
     if abs(r) > LIMIT:
         raise Unsafe('intermediate value beyond 32767')
+    if not _fits_single(r):
+        raise Unsafe('result needs more than 24 mantissa bits')
     return r
 
 
